@@ -9,7 +9,14 @@ Protocol (ids are small naturals; op n is "op<n>", resource n is "r<n>" in the i
   exempt o b           ctx.metadata["watchdog_exempt"] = b            adv us   virtual clock
   deadlock             controller.check_deadlock()                    watchdog   watchdog.execute(controller)
   boost                priority_manager.check_and_boost(controller)   maint      run_maintenance()
-  exec o p r,r,..|-|none <4 x b|n|x> <n|k<t>|s|w|m>:<ok|raise>[:<us passing inside work>] <absent|yes|no|raise>     execute_operation
+  exec o p r,r,..|-|none <4 x b|n|x|y|z> <n|k<t>|s|w|m>:<ok|raise[.K]>[:<us passing inside work>] <absent|yes|no|raise[.K]>
+                       CoordinationSystem.execute_operation
+  cell o p <same five fields as exec> <ok|notag|raise[.K]>          IntegratedCell.execute (cell.coordination = the system)
+Exception kinds K: V0 ValueError(), A0 AssertionError(), R0 RuntimeError(""), K0 KeyError(), C0 CustomFault() (all with
+str(e) == ""), Vm ValueError("boom"), Km KeyError("k"), Cm CustomFault("boom"); plain `raise` = RuntimeError with a
+message.  Checkpoints: x RuntimeError("checkpoint"), y ValueError(), z CustomFault().  BaseException subclasses
+(KeyboardInterrupt, SystemExit) are not injected: every handler in system.py / controller.py / cell.py is
+`except Exception`, the code does not claim to survive them.
 Calls naming an operation that is not in controller.active_operations are not made ("noop"); registering an id
 twice is not made ("dup").  Every observation is "<result> | <state dump>".
 """
@@ -21,6 +28,21 @@ from ..core import import_repo, show_bool
 from ..util import FakeClock, call_guarded
 
 PHASES = ["g0", "g1", "s", "g2", "m"]
+
+
+class CustomFault(Exception):
+    pass
+
+
+def make_exc(tok, default_msg):
+    """tok: 'raise' or 'raise.<kind>'"""
+    kind = tok.split(".", 1)[1] if "." in tok else ""
+    return {"V0": lambda: ValueError(), "A0": lambda: AssertionError(), "R0": lambda: RuntimeError(""),
+            "K0": lambda: KeyError(), "C0": lambda: CustomFault(), "Vm": lambda: ValueError("boom"),
+            "Km": lambda: KeyError("k"), "Cm": lambda: CustomFault("boom")}.get(kind, lambda: RuntimeError(default_msg))()
+
+
+KINDS = ["", "", ".V0", ".A0", ".R0", ".K0", ".C0", ".Vm", ".Km", ".Cm"]
 
 
 def opn(n):
@@ -69,6 +91,8 @@ class Impl:
         self.defaults = {ph: cps[0].condition for ph, cps in ctrl.checkpoints.items()}
         self.default_cps = dict(ctrl.checkpoints)
         self.cs = cs
+        self.cell = o.m_cell.IntegratedCell()
+        self.cell.coordination = cs
 
     # ------------------------------------------------------------------------------------------------------
     def snapshot(self):
@@ -141,7 +165,7 @@ class Impl:
         return "[" + ",".join(f"{a}:{o}>{n}" for a, n, o in items) + "]"
 
     # ------------------------------------------------------------------------------------------------------
-    def do_exec(self, t, info):
+    def do_exec(self, t, info, via_cell=False):
         cs = self.cs
         ctrl = cs.controller
         C = self.o.m_controller
@@ -152,6 +176,7 @@ class Impl:
         act, wok = wparts[0], wparts[1]
         tick = int(wparts[2]) if len(wparts) > 2 else 0
         val = t[6]
+        post = t[7] if via_cell else "ok"
         log = []
         counter = [0]
 
@@ -160,9 +185,10 @@ class Impl:
                 i = counter[0]
                 counter[0] += 1
                 o = script[i] if i < len(script) else "b"
-                if o == "x":
+                if o in "xyz":
                     log.append(f"cp{i}:0")
-                    raise RuntimeError("checkpoint")
+                    raise {"x": lambda: RuntimeError("checkpoint"), "y": lambda: ValueError(),
+                           "z": lambda: CustomFault()}[o]()
                 r = False if o == "n" else bool(self.defaults[phase](ctx))
                 log.append(f"cp{i}:{show_bool(r)}")
                 return r
@@ -184,24 +210,60 @@ class Impl:
             elif act == "m":
                 cs.run_maintenance()
             if wok != "ok":
-                raise RuntimeError("work")
+                raise make_exc(wok, "work")
             return 42
 
         def validate(x):
             log.append(f"val:{show_bool(val == 'yes')}")
-            if val == "raise":
-                raise RuntimeError("validate")
+            if val.startswith("raise"):
+                raise make_exc(val, "validate")
             return val == "yes"
+
+        def show_coord(res):
+            err = "none" if res.error is None else ("empty" if res.error == "" else "text")
+            return (f"{show_bool(res.success)} {res.phase_reached.value} err:{err} own:{own[0] if own else '-'} "
+                    f"[{','.join(log)}]")
+        captured = []
+        orig_exec = cs.execute_operation
+        cell = self.cell
         try:
-            res = cs.execute_operation(op, "agent", work, resources=req,
-                                       validate_fn=None if val == "absent" else validate, priority=prio)
-            out = f"{show_bool(res.success)} {res.phase_reached.value} own:{own[0] if own else '-'} [{','.join(log)}]"
-            info["success"] = bool(res.success)
+            if via_cell:
+                def spy(*a, **k):
+                    r = orig_exec(*a, **k)
+                    captured.append(r)
+                    return r
+                cs.execute_operation = spy
+                if post == "notag":
+                    cell.quality_pool.allocate = lambda *a, **k: None
+                elif post.startswith("raise"):
+                    def boom(*a, **k):
+                        raise make_exc(post, "pool")
+                    cell.quality_pool.allocate = boom
+                cres = cell.execute("agent", op, work, resources=req,
+                                    validate_fn=None if val == "absent" else validate, priority=prio)
+                res = captured[0] if captured else None
+                out = (f"cell:{show_bool(cres.success)} {cres.blocked_by or 'none'} out:{show_bool(cres.output is not None)} "
+                       f"att:{show_bool(cres.coordination_result is not None)} trk:{show_bool('agent' in cell.agent_operations)} "
+                       + (show_coord(res) if res is not None else "no-coordination-result"))
+                info["cell_success"] = bool(cres.success)
+                info["success"] = bool(cres.success)
+                info["coord_success"] = bool(res.success) if res is not None else None
+                info["blocked_by"] = cres.blocked_by
+                info["has_output"] = cres.output is not None
+                info["tracked"] = "agent" in cell.agent_operations
+            else:
+                res = cs.execute_operation(op, "agent", work, resources=req,
+                                           validate_fn=None if val == "absent" else validate, priority=prio)
+                out = show_coord(res)
+                info["success"] = bool(res.success)
+                info["coord_success"] = bool(res.success)
         except Exception as e:  # noqa
             out = f"raise:{type(e).__name__}"
             info["raised"] = type(e).__name__
         finally:
             ctrl.checkpoints = dict(self.default_cps)
+            cs.__dict__.pop("execute_operation", None)
+            cell.quality_pool.__dict__.pop("allocate", None)
         info["log"] = list(log)
         info["own"] = list(own)
         return out
@@ -280,6 +342,8 @@ class Impl:
                 return f"{self.show_boosts(r['priority_boosts'])} {self.show_events(r['apoptosis'])}", info
             if k == "exec" and len(t) == 7:
                 return self.do_exec(t, info), info
+            if k == "cell" and len(t) == 8:
+                return self.do_exec(t, info, via_cell=True), info
         except Exception as e:  # noqa
             info["raised"] = type(e).__name__
             return f"raise:{type(e).__name__}", info
@@ -295,7 +359,9 @@ class CoordMixin:
         import operon_ai.coordination.controller as m_controller
         import operon_ai.coordination.watchdog as m_watchdog
         import operon_ai.coordination.types as m_types
+        import operon_ai.cell as m_cell
         self.m_system, self.m_controller, self.m_watchdog, self.m_types = m_system, m_controller, m_watchdog, m_types
+        self.m_cell = m_cell
         self.clock = FakeClock()
         fake = self.clock.datetime_class()
         m_controller.datetime = fake
@@ -328,8 +394,10 @@ class CoordMixin:
 # ----------------------------------------------------------------------------------------------------------
 # generation helpers
 # ----------------------------------------------------------------------------------------------------------
-CP_SCRIPTS = ["bbbb"] * 6 + ["nbbb", "xbbb", "bnbb", "bxbb", "bbnb", "bbxb", "bbbn", "bbbx", "nnbb", "nbnb", "xbbn"]
-VALS = ["absent", "yes", "yes", "no", "raise"]
+CP_SCRIPTS = ["bbbb"] * 6 + ["nbbb", "xbbb", "bnbb", "bxbb", "bbnb", "bbxb", "bbbn", "bbbx", "nnbb", "nbnb", "xbbn",
+                              "ybbb", "bybb", "bbzb", "bbby", "bzbb"]
+VALS = ["absent", "yes", "yes", "yes", "no", "raise", "raise"]
+POSTS = ["ok", "ok", "ok", "notag", "raise", "raise.V0", "raise.Cm"]
 
 
 def gen_exec(rng, op, nres, others, fault=None):
@@ -352,10 +420,15 @@ def gen_exec(rng, op, nres, others, fault=None):
         act = "w"
     else:
         act = "m"
-    wok = "ok" if rng.random() < 0.75 else "raise"
+    wok = "ok" if rng.random() < 0.75 else "raise" + rng.choice(KINDS)
     if act in "wm" and rng.random() < 0.6:
         wok += f":{rng.choice([1, 6, 11])}"
-    return f"exec {op} {rng.randint(0, 5)} {rs} {cps} {act}:{wok} {rng.choice(VALS)}"
+    val = rng.choice(VALS)
+    if val == "raise":
+        val += rng.choice(KINDS)
+    if rng.random() < 0.35:
+        return f"cell {op} {rng.randint(0, 5)} {rs} {cps} {act}:{wok} {val} {rng.choice(POSTS)}"
+    return f"exec {op} {rng.randint(0, 5)} {rs} {cps} {act}:{wok} {val}"
 
 
 def gen_cfg(rng):
